@@ -43,39 +43,46 @@ def inUse (sb : Option SetupBy) (top : Str × Str) (q : Prod) : Bool :=
   | some sb => !(usedBy sb top q).isEmpty
   | none => false
 
-/-- the `for product, o, recursionDepth in deps` loop of `_remove`; `recur q` is the nested call
-`self._remove(q.name, q.version, q.name != productName, ...)` -/
+/-- the products whose dependencies have been (or are being) collected: `seen` of `_remove` -/
+abbrev Seen := List (Str × Option Str)
+
+/-- the `for product, o, recursionDepth in deps` loop of `_remove`; `recur q seen` is the nested call
+`self._remove(q.name, q.version, q.name != productName, ..., seen)` -/
 def collectLoop (sb : Option SetupBy) (force : Bool) (top : Str × Str) (recursive : Bool)
-    (recur : Prod → Except Err (List Prod)) : List Prod → List Prod → Except Err (List Prod)
-  | [], acc => .ok acc
-  | q :: qs, acc =>
+    (recur : Prod → Seen → Except Err (List Prod × Seen)) :
+    List Prod → List Prod → Seen → Except Err (List Prod × Seen)
+  | [], acc, seen => .ok (acc, seen)
+  | q :: qs, acc, seen =>
     if inUse sb top q && !force then .error .refused
     else if recursive then
-      match recur q with
+      match recur q seen with
       | .error e => .error e
-      | .ok sub => collectLoop sb force top recursive recur qs (acc ++ sub ++ [q])
-    else collectLoop sb force top recursive recur qs (acc ++ [q])
+      | .ok (sub, seen') => collectLoop sb force top recursive recur qs (acc ++ sub ++ [q]) seen'
+    else collectLoop sb force top recursive recur qs (acc ++ [q]) seen
 
-/-- `deps = [[product, False, 0]]; if recursive: deps += tbl.dependencies(self)` (not recursive: direct
-dependencies only); `none` = out of fuel in an unsetup branch -/
-def directDeps (db : Db) (p : Prod) (recursive : Bool) : Option (List Prod) :=
-  if recursive then (depsOf db db.fuel [] p false 0 St.empty).map fun r => p :: r.1.map (·.prod)
+/-- `deps = [[product, False, 0]]; if recursive and not seen: deps += tbl.dependencies(self)` (not recursive:
+direct dependencies only); `none` = out of fuel in an unsetup branch -/
+def directDeps (db : Db) (p : Prod) (expand : Bool) : Option (List Prod) :=
+  if expand then (depsOf db db.fuel [] p false 0 St.empty).map fun r => p :: r.1.map (·.prod)
   else some [p]
 
-/-- `Eups._remove`: the list `productsToRemove` (with repetitions) -/
+/-- `Eups._remove`: the list `productsToRemove` (with repetitions) and the visited set.  A product's
+dependencies are collected the first time it is met with `recursive` set (so a dependency cycle ends). -/
 def collect (db : Db) (sb : Option SetupBy) (force : Bool) (defaultName : Option Str) (top : Str × Str) :
-    Nat → Str → Option Str → Bool → Except Err (List Prod)
-  | 0, _, _, _ => .error .outOfFuel
-  | f + 1, name, ver, recursive =>
-    if defaultName == some name then .ok []
+    Nat → Str → Option Str → Bool → Seen → Except Err (List Prod × Seen)
+  | 0, _, _, _, _ => .error .outOfFuel
+  | f + 1, name, ver, recursive, seen =>
+    if defaultName == some name then .ok ([], seen)
     else match db.find name ver with
       | none => .error .notFound
       | some p =>
-        match directDeps db p recursive with
+        let expand := recursive && !seen.contains (prodkey p)
+        match directDeps db p expand with
         | none => .error .outOfFuel
         | some deps =>
           collectLoop sb force top recursive
-            (fun q => collect db sb force defaultName top f q.name q.ver (q.name != name)) deps []
+            (fun q sn => collect db sb force defaultName top f q.name q.ver (q.name != name) sn) deps []
+            (if expand then prodkey p :: seen else seen)
 
 /-- `_set(productsToRemove)` -/
 def uniqProds (l : List Prod) : List Prod := Topo.dedup l
@@ -88,9 +95,9 @@ def destroy (s : State) (R : List Prod) : State :=
     tags := s.tags.filter fun t => !removed R t.1 t.2.2
     dirs := s.dirs.filter fun d => !removed R d.1 d.2 }
 
-/-- fuel for `_remove`'s own recursion: a deeper nest than twice the number of declarations repeats a
-call and therefore never ends (`RecursionError`) -/
-def State.removeFuel (s : State) : Nat := 2 * s.decls.length + 2
+/-- fuel for `_remove`'s own recursion: every nested call with `recursive` set opens a product not opened
+before (at most one per declaration), the others end one level down -/
+def State.removeFuel (s : State) : Nat := 2 * s.decls.length + 4
 
 /-- `Eups.remove(productName, versionName, recursive, checkRecursive)` with `Eups.force`;
 `uses` is the outcome of `self.uses(None)` (computed only when the check is on).
@@ -98,9 +105,9 @@ Returns the outcome, the new state and the products removed. -/
 def removeWith (s : State) (uses : UsesOutcome) (name ver : Str) (recursive check force : Bool)
     (defaultName : Option Str) : Outcome × State × List Prod :=
   let go (sb : Option SetupBy) : Outcome × State × List Prod :=
-    match collect s.db sb force defaultName (name, ver) s.removeFuel name (some ver) recursive with
+    match collect s.db sb force defaultName (name, ver) s.removeFuel name (some ver) recursive [] with
     | .error e => (.failed e, s, [])
-    | .ok l => (.ok, destroy s (uniqProds l), uniqProds l)
+    | .ok (l, _) => (.ok, destroy s (uniqProds l), uniqProds l)
   if check then
     match uses with
     | .outOfFuel => (.failed .outOfFuel, s, [])
